@@ -43,7 +43,7 @@ M = [
 REVERTS = [
  ("2961902", ["C14"]), ("3b96baf", ["C14"]), ("8b049e3", ["C08"]), ("1551696", ["C08"]), ("90b2f43", ["C08"]), ("b8d83d7", ["C08"]),
  ("603c7aa", ["C02", "C07"]), ("57f5b13", ["C02", "C09"]), ("3f43552", ["C11", "C02"]), ("1641b68", ["C13"]), ("377663b", ["C18"]),
- ("3f84678", ["C10"]), ("38a1e4f", ["C10"]), ("a23bdb5", ["C10"]), ("ac63bc9", ["C10"]), ("26ea053", ["C10"]), ("1f3eb0f", ["C09"]), ("3f1c6f2", ["C03"]), ("819b175", ["C02"]), ("0dd871d", ["C05"]),
+ ("3f84678", ["C10"]), ("38a1e4f", ["C10"]), ("a23bdb5", ["C10"]), ("ac63bc9", ["C10"]), ("26ea053", ["C10"]), ("1f3eb0f", ["C09"]), ("3f1c6f2", ["C03"]), ("819b175", ["C02"]), ("0dd871d", ["C05"]), ("ddc11b9", ["C07", "C02", "C10"]),
 ]
 
 def sh(cmd, **kw):
